@@ -2,6 +2,7 @@ import TdVerif.Sexp
 import TdVerif.Model.C19Vmap
 import TdVerif.Model.C19Ops
 import TdVerif.Model.C19Lazy
+import TdVerif.Model.C19MemoHist
 
 namespace TdVerif.Drive
 open TdVerif Sexp TdVerif.C19
@@ -255,6 +256,24 @@ def handleC19 (cmd : String) (args : List Sexp) : Option Sexp :=
         else (m, seen, out ++ [n], n + 1)
       let (_, _, out, _) := reqs.foldl step (([] : Memo), ([] : List (Wrapper × Nat)), ([] : List Nat), 0)
       pure (ofNats out)
+  | "c19.memo_hist", [.list parents, .list kinds, .list evs] => do
+      -- a history on a lock graph: containers (0 = none, p+1 = node p), lock kinds, events (req k i level) | (api op j):
+      -- answer = (wfCheck, lock ancestors of every node, for each request the first request that returned the same object)
+      let ps ← parents.mapM asNat?
+      let ks ← kinds.mapM (fun k => match k with
+        | .atom "own" => some MH.Kind.own
+        | .atom "members" => some MH.Kind.byMembers
+        | .atom "unlocked" => some MH.Kind.unlocked
+        | _ => none)
+      let t : MH.Topo := ⟨ps.map (fun p => if p = 0 then none else some (p - 1)), ks⟩
+      let g := t.graph
+      let es ← evs.mapM (fun e => match e with
+        | .list [.atom "req", k, i, l] => do pure [MH.Ev.request (← asNat? k) (← asNat? i) (← asNat? l)]
+        | .list [.atom "api", .atom op, j] => do pure (MH.apiEvents g op (← asNat? j))
+        | _ => none)
+      let ws := (MH.run g MH.St.init es.flatten).2
+      pure (.list [.atom (if g.wfCheck then "wf" else "not-wf"), .list ((List.range g.n).map (fun j => ofNats (g.lanc j))),
+                   ofNats (MH.identityPattern ws)])
   | "c19.norm", [d, r] => do
       let d ← asInt? d
       let r ← asNat? r
